@@ -86,6 +86,7 @@ type Exec struct {
 	effects   map[string]Value // harness scratch
 	local     *localCtx
 	ifc       *ifcCtx
+	race      *raceTracker
 	noIfConv  bool
 	sumCache  map[*ssa.Function]bool
 
@@ -395,6 +396,7 @@ func (e *Exec) runPath(prefix []uint64, fn *ssa.Function) (out pathOutcome) {
 	e.effects = map[string]Value{}
 	e.local = nil
 	e.ifc = nil
+	e.race = nil
 	if e.sumCache == nil {
 		e.sumCache = map[*ssa.Function]bool{}
 	}
